@@ -145,13 +145,22 @@ static inline void vh_slot_floats(World &w) {
 // Arbitrary attachment forest over the live slots: symbolic parent vector made acyclic by a symbolic rank;
 // child/sibling chains list the children of each parent in index order.
 static inline void vh_make_forest(World &w) {
-  int par[NS ? NS : 1]; uint8_t rank[NS ? NS : 1];
+  int par[NS ? NS : 1];
+#ifdef FORESTV
+  // parent vector enumerated concretely by the query list (all (n+1)^(n-1) labelled forests for small n):
+  // a symbolic parent vector makes every slot pointer a case split over all slots and gives no verdict in 240 s even at n=2
+  static const int forestv[] = {FORESTV};
+  static_assert(sizeof(forestv) / sizeof(int) >= (NS ? NS : 1), "FORESTV has one parent per slot");
+  for (unsigned i = 0; i < NS; ++i) par[i] = forestv[i];
+#else
+  uint8_t rank[NS ? NS : 1];
   for (unsigned i = 0; i < NS; ++i) {
     uint8_t p = nondet_u8(); rank[i] = nondet_u8();
     ASSUME(p <= NS && p != i && rank[i] < NS);
     par[i] = p == NS ? -1 : (int)p;
   }
   for (unsigned i = 0; i < NS; ++i) if (par[i] >= 0) ASSUME(rank[par[i]] < rank[i]);
+#endif
   for (unsigned i = 0; i < NS; ++i) {
     Slot &s = *w.sl[i];
     s.m_parent = par[i] >= 0 ? w.sl[par[i]] : 0;
@@ -165,7 +174,7 @@ static inline void vh_make_forest(World &w) {
   }
 }
 
-static inline bool vh_in_slots(const World &w, const Slot *s) {
+static __attribute__((noinline)) bool vh_in_slots(const World &w, const Slot *s) {
   for (unsigned i = 0; i < NS + NSPARE; ++i) if (w.sl[i] == s) return true;
   return false;
 }
